@@ -61,6 +61,16 @@ thread_local! {
     static IN_FIND: RefCell<bool> = const { RefCell::new(false) };
 }
 
+/// Run code under test in process (a hook entry point): a panic is caught and returned as
+/// "file:line: message" instead of being reported as a harness panic.
+pub fn catch<T>(f: impl FnOnce() -> T) -> Result<T, String> {
+    *PANIC_INFO.lock().unwrap() = None;
+    IN_FIND.with(|x| *x.borrow_mut() = true);
+    let r = std::panic::catch_unwind(std::panic::AssertUnwindSafe(f));
+    IN_FIND.with(|x| *x.borrow_mut() = false);
+    r.map_err(|_| PANIC_INFO.lock().unwrap().take().unwrap_or_else(|| "?".into()))
+}
+
 pub struct Ctx {
     /// absolute path of this worker's sandbox; the worker's cwd
     pub root: PathBuf,
